@@ -1,7 +1,9 @@
 (* C11 driver: one case per line
      <id> <op> <args> ...
    ops:  set|xset <id>   unset <id>   cset <id> <0|1>   get|xget <id>   clear
-         res|xres <max>  emit|hash <ev> <rsp>  serr <0|1>  sdef <id>  ctx  fini|xfini
+         res|xres <max>  emit|hash <ev> <rsp>  serr <0|1>  sdef <id>  ctx  fini|xfini  xarr
+         beside the dispatcher: djb|djs <hex>  djn <len>  lrep <msg>  rset <max> <cur> <data>  rzero <max> <cur> <len>
+         rdefer  rtraits  xcopy  unk <ev>  cinit <n|0|1>
    ids are hex (up to 64 bit); ev = N | <id>:<msg>:<reply>, msg = n | f<hex>,<hex>,..,
    reply = 0 | tag; rsp = <ret>:<newid | ->.
    prints "M <id> tok..." (mechanism model) and "S <id> tok..." (specification);
@@ -67,6 +69,24 @@ let rec parse_ops toks = match toks with
   | "sdef" :: i :: r -> ("sdef", OSetDef (n_of_hex i)) :: parse_ops r
   | "ctx" :: r -> ("ctx", OSetCtx) :: parse_ops r
   | ("fini" | "xfini" as t) :: r -> (t, OFini) :: parse_ops r
+  | "xarr" :: r -> ("xarr", OArr) :: parse_ops r
+  | "djb" :: h :: r -> ("djb", OAux (ADjbLen (unhex h))) :: parse_ops r
+  | "djs" :: h :: r -> ("djs", OAux (ADjbStr (unhex h))) :: parse_ops r
+  | "djn" :: l :: r -> ("djn", OAux (ADjbNull (z_of_int (int_of_string l)))) :: parse_ops r
+  | "lrep" :: m :: r -> ("lrep", OAux (ALogReply (parse_frags m))) :: parse_ops r
+  | "rset" :: mx :: c :: d :: r ->
+    ("rset", OAux (ARSet (n_of_int (int_of_string mx), unhex c, unhex d))) :: parse_ops r
+  | "rzero" :: mx :: c :: l :: r ->
+    ("rzero", OAux (ARZero (n_of_int (int_of_string mx), unhex c, nat_of_int (int_of_string l)))) :: parse_ops r
+  | "rdefer" :: r -> ("rdefer", OAux ADefer) :: parse_ops r
+  | "rtraits" :: r -> ("rtraits", OAux ATraits) :: parse_ops r
+  | "xcopy" :: r -> ("xcopy", OAux ACopy) :: parse_ops r
+  | "cinit" :: w :: r ->
+    ("cinit", OAux (ACmdInit (if w = "n" then None else Some (w = "1")))) :: parse_ops r
+  | "unk" :: e :: r ->
+    (match parse_ev e with
+     | Some ev -> ("unk", OAux (AUnknown (ev.e_id, ev.e_msg, ev.e_reply))) :: parse_ops r
+     | None -> failwith "unk needs an event")
   | t :: _ -> failwith ("bad op " ^ t)
 
 let fn_char f = match f with FUser -> "h" | FLog -> "L" | FUnk -> "U"
@@ -90,6 +110,14 @@ let show_ctx c = match c with None -> "-" | Some c -> "c" ^ dec_of_n c
 let show_ev z i rp =
   Printf.sprintf "e%d:%s:%s" (int_of_z z) (match i with None -> "-" | Some i -> hex_of_n i) (optn rp)
 
+let show_aux x = match x with
+  | XHash h -> "x" ^ hex_of_n h
+  | XInt z -> "L" ^ string_of_int (int_of_z z)
+  | XBool b -> if b then "b1" else "b0"
+  | XRData (ok, len, v) -> Printf.sprintf "d%d:%s:%s" (if ok then 1 else 0) (dec_of_n len) (hex_of_bytes v)
+  | XUnk (ret, id) -> Printf.sprintf "w%d:%s" (int_of_z ret) (hex_of_n id)
+  | XInit (ret, z) -> Printf.sprintf "t%d:%s" (int_of_z ret) (if z then "z" else "u")
+
 let show_out t o = match o with
   | OInt z ->
     let z = int_of_z z in
@@ -105,6 +133,7 @@ let show_out t o = match o with
   | ORes (Some (pos, id)) -> Printf.sprintf "i%d:%s" (int_of_nat pos) (hex_of_n id)
   | OEv (z, i, rp) -> show_ev z i rp
   | OVoid -> "v"
+  | OAuxR x -> show_aux x
   | OFault -> "F"
   | OFuel -> "FUEL"
 
@@ -119,6 +148,7 @@ let show_sout t o = match o with
   | SEv (z, i, rp) -> show_ev z i rp
   | SBool b -> if b then "b1" else "b0"
   | SVoid -> "v"
+  | SAux x -> show_aux x
   | SBad -> "BAD"
 
 let show_tbl t = match t with
